@@ -447,6 +447,33 @@ func (p *parser) primary() Expr {
 			return p.quant()
 		}
 		if p.isOp("(") {
+			if t.s == "typeis" || t.s == "unbox" {
+				// second argument is a Go type, e.g. typeis(x, *DedupStage)
+				p.expectOp("(")
+				x := p.expr()
+				p.expectOp(",")
+				var b strings.Builder
+				depth := 0
+				for {
+					tk := p.peek()
+					if tk.k == "eof" {
+						break
+					}
+					if tk.k == "op" && tk.s == ")" && depth == 0 {
+						break
+					}
+					if tk.k == "op" && (tk.s == "(" || tk.s == "[") {
+						depth++
+					}
+					if tk.k == "op" && (tk.s == ")" || tk.s == "]") {
+						depth--
+					}
+					b.WriteString(tk.s)
+					p.next()
+				}
+				p.expectOp(")")
+				return &ECall{t.s, []Expr{x, &EIdent{b.String()}}}
+			}
 			args := p.args()
 			return &ECall{t.s, args}
 		}
